@@ -15,6 +15,11 @@ CLAIMS = {
   "text": "Theorems load_spec, run_eq_ref, fetch_in_bounds, run_panic_only_rti hold for every image, input and step count. The model of from_raw/run is tied to the Rust code on every run by executing generated terminating programs and arbitrary word images in both under a step budget and comparing outcome, exit status, final machine (all 65,536 words), stdout, input consumed and the fetch-address trace; the no-out-of-bounds-fetch predicate is also checked directly on the implementation's event log.",
   "note": "Trusted: Lean kernel; axioms propext, Classical.choice, Quot.sound; model validated by differential testing; stderr text and non-minimal REG table not modelled; the reference loop and the model loop have the same shape by nature (the value is in fetch_in_bounds, load_spec, no-panic and the trap clauses of C02).",
   "ref": "DESIGN.md §4 C03"},
+ "C20": {
+  "technique": "Lean 4 proof (one-step simulation of Terminal::handle_key against a reference editor + invariant, induction over all key sequences, all classifiers) + exhaustive/differential correspondence through hooks on the real Terminal",
+  "text": "Theorems editor_no_panic, cursor_in_bounds, submit_eq_reference (and commands_eq_split for the `;` splitting) hold for every key sequence of any length, every character classifier and every history of non-blank lines. The model of terminal.rs is tied to the Rust code on every run by driving the real handle_key/read_line/get_next_command through cfg(verif) hooks on all key sequences up to length 4 (5 thorough) over a 15-key alphabet from three histories plus random long sequences, comparing buffer, cursor, history index, current line and submitted text after every key, three-way with the reference editor.",
+  "note": "Trusted: Lean kernel; axioms propext, Quot.sound; Unicode classification (is_whitespace/is_alphanumeric) is a parameter of the model supplied by Rust at run time; crossterm key decoding, prompt drawing and history-file I/O are not modelled.",
+  "ref": "DESIGN.md §4 C20"},
 }
 
 def main():
